@@ -143,13 +143,14 @@ type gen struct {
 	rng      *rand.Rand
 	prof     string
 	tag      byte
-	U        *thor.Address // universal contract (after deployment)
-	U2       *thor.Address // second instance, to be self-destructed to a third party
-	SDS      *thor.Address // ADDRESS SELFDESTRUCT contract (finding F3)
-	UZ       *thor.Address // U instance holding VTHO but ZERO VET, self-destructed to a third party
-	UV       *thor.Address // U instance holding VET but never given VTHO, self-destructed to the tx origin
-	UP       *thor.Address // "poor" U instance: credit plan and a user, but no energy and no sponsor -> the ORIGIN pays although commonTo/credit apply
-	US       *thor.Address // "sleeper" U instance: holds VET, untouched from block 1 until well after HAYABUSA, then forwards VET
+	U        *thor.Address    // universal contract (after deployment)
+	U2       *thor.Address    // second instance, to be self-destructed to a third party
+	SDS      *thor.Address    // ADDRESS SELFDESTRUCT contract (finding F3)
+	UZ       *thor.Address    // U instance holding VTHO but ZERO VET, self-destructed to a third party
+	UV       *thor.Address    // U instance holding VET but never given VTHO, self-destructed to the tx origin
+	UF       [2]*thor.Address // zero-VET, zero-VTHO U instances: funded and destroyed within ONE tx (VET but exactly no VTHO at the destruct)
+	UP       *thor.Address    // "poor" U instance: credit plan and a user, but no energy and no sponsor -> the ORIGIN pays although commonTo/credit apply
+	US       *thor.Address    // "sleeper" U instance: holds VET, untouched from block 1 until well after HAYABUSA, then forwards VET
 	stats    map[string]int
 	limit    uint64 // gas limit of the block being generated
 	gasLimit uint64
@@ -307,6 +308,8 @@ func (g *gen) blockTxs(parent *chain.BlockSummary, step int, full bool) []*tx.Tr
 		add("create", g.mk(parent, 6, txOpt{gas: 1_500_000, delegator: -1}, tx.NewClause(nil).WithValue(vet(2)).WithData(sim.InitCode(sim.UCode(), nil, nil))))
 		add("create", g.mk(parent, 7, txOpt{gas: 1_500_000, delegator: -1}, tx.NewClause(nil).WithValue(vet(50)).WithData(sim.InitCode(sim.UCode(), nil, nil))))
 		add("create", g.mk(parent, 8, txOpt{gas: 1_500_000, delegator: -1}, tx.NewClause(nil).WithData(sim.InitCode(sim.UCode(), w(3), w(4)))))
+		add("create", g.mk(parent, 3, txOpt{gas: 1_500_000, delegator: -1}, tx.NewClause(nil).WithData(sim.InitCode(sim.UCode(), nil, nil))))
+		add("create", g.mk(parent, 4, txOpt{gas: 1_500_000, delegator: -1}, tx.NewClause(nil).WithData(sim.InitCode(sim.UCode(), nil, nil))))
 		return txs
 	case 2:
 		if g.U == nil || g.SDS == nil || g.U2 == nil || g.UZ == nil || g.UV == nil || g.US == nil || g.UP == nil {
@@ -356,6 +359,19 @@ func (g *gen) blockTxs(parent *chain.BlockSummary, step int, full bool) []*tx.Tr
 	if step == 10 || step == 21 || (step > 30 && step%9 == 0) {
 		// the user has credit at a contract that cannot pay and has no sponsor: the origin pays, and the refund is the origin's
 		add("credit-user-pays-himself", g.mk(parent, 5, none, call(*g.UP, sim.UCall(sim.OpStore, w(int64(step)), w(1)))))
+	}
+	if (step == 12 || step == 13) && g.UF[step-12] != nil {
+		// fund and destroy in ONE tx: at the SELFDESTRUCT the contract holds VET but exactly zero VTHO. The receiver is an
+		// OLD account with pending growth: a sleeper (untouched since block 4) / the beneficiary of this block (first tx)
+		to := sleeper(1)
+		if step == 13 {
+			to = g.addr(proposer)
+		}
+		u := g.UF[step-12]
+		txs = append([]*tx.Transaction{g.mk(parent, 9, txOpt{gas: 400_000, delegator: -1},
+			tx.NewClause(u).WithValue(vet(3)), call(*u, sim.UCall(sim.OpDestroy, sim.AddrWord(to))))}, txs...)
+		g.stats["fund-and-destroy"]++
+		g.UF[step-12] = nil
 	}
 	if step == 9 {
 		// re-entrant double SELFDESTRUCT inside one clause
@@ -892,6 +908,10 @@ func runProfile(prof string, seed int64, blocks int, evs *[]trace.Ev) runStat {
 					g.US = &a
 				case 6:
 					g.UP = &a
+				case 7:
+					g.UF[0] = &a
+				case 8:
+					g.UF[1] = &a
 				}
 			}
 		}
